@@ -72,11 +72,11 @@ def meta(tier):
                 'mnemonics that are prefixes of one another or contain a period; macros; symbols; zones) x 2 output formats; the default '
                 'schedule and every schedule with one (thorough: two) deviating choice point (all permutations for sets of <=4 elements, '
                 'reversal and every rotation above) must produce identical status, image and pretty print; the default schedule is '
-                'replayed twice. Part B: the same programs x 4 formats through the real CLI for hash seeds 0..3 (thorough 0..31) x 2 (thorough 3) '
+                'replayed twice. Part B: the same programs x 4 formats through the real CLI for hash seeds 0..3 (thorough 0..15) x 2 (thorough 3) '
                 'working directories x every permutation of the include directories x {bare, cluttered} environment; '
                 'non-trivial = execution whose schedule or environment differs from the reference execution; '
                 'states = distinct (program, format, number of choice points); transitions = executions',
-        'bounds': {'programs': [p[0] for p in PROGRAMS], 'hash_seeds': 4 if q else 32, 'deviating_choice_points': 1 if q else 2},
+        'bounds': {'programs': [p[0] for p in PROGRAMS], 'hash_seeds': 4 if q else 16, 'deviating_choice_points': 1 if q else 2},
         'assumptions': ['sets are created by set(...) calls, set displays or set comprehensions inside bespokeasm (that is what the import '
                         'hook rewrites); only sets containing a str/bytes/object element are permuted (the order of int sets does not '
                         'depend on the hash seed)',
@@ -160,7 +160,7 @@ def shard(acc, tier, idx, n):
             ctr += 1
             if ctr % n == idx:
                 explore_schedules(acc, pi, fmt, 1 if q else 2)
-    seeds = range(4 if q else 32)
+    seeds = range(4 if q else 16)
     cwds = ('<work>', '/') if q else ('<work>', '/', '<root>')
     formats_b = ['listing', 'minhex'] if q else FORMATS_B
     for pi, (name, files, incdirs) in enumerate(PROGRAMS):
@@ -172,8 +172,8 @@ def shard(acc, tier, idx, n):
                 ctr += 1
                 if ctr % n != idx:
                     continue
-                if q and (seed + len(str(cwd)) + perms.index(perm)) % 3 and envname == 'cluttered':
-                    continue        # quick tier: cluttered environment on a third of the grid
+                if (seed + len(str(cwd)) + perms.index(perm)) % 3 and envname == 'cluttered':
+                    continue        # cluttered environment on a third of the grid
                 if ref is None:
                     ref = world.run_cli(ref_case, env_extra={'PYTHONHASHSEED': '0'}, env_base=BARE)
                     acc.count_eval(1, ref.status)
